@@ -2,6 +2,7 @@ import MorfuseModel.Archive.Sample
 import MorfuseModel.Archive.ValueRoundTrip
 import MorfuseModel.Archive.EqW
 import MorfuseModel.Archive.Dict
+import MorfuseModel.Archive.TablesLemmas
 /-!
 # C10 — archives round-trip values and object graphs faithfully
 
@@ -135,6 +136,31 @@ theorem C10_dictionary_ids_stable (D : Dict) (texts : List Bytes) :
     loading dictionary has not seen comes back as `const_str::None()` -/
 theorem C10_lookup_instead_of_intern_loses_text : (Dict.find [] [97]) = 0 ∧ Dict.text [] 0 = none := by decide
 
+/-! ### `Listener::Archive`'s own tables (`con::set<const_str, ConList>`, `Container<SafePtr<Listener>>`) -/
+
+/-- **Listener tables, stream phase.**  The bytes of a Listener record with event tables are
+    `encItem t (.object m o "Listener" (listenerCalls st))` (so `C10_roundtrip` already covers them for a reader
+    that knows the schema); the real reader is **data-directed** — flag byte, `count`, `hasString`, `num` decide
+    which calls follow.  Run where the stream holds what the writer produced for `st` (after any prefix, with any
+    object table `t` so far), that reader returns the tables — archive indices in the pointer slots — consumes
+    exactly the body and queues exactly the fix-ups of the body.  Any number of entries, keys of any text, lists
+    of any length with null and repeated listeners. -/
+theorem C10_listener_tables_roundtrip (cfg : Cfg) (T : List Lbl) (hT : T.length < nullIdx) (st : LTables)
+    (hw : WFTables cfg st) (t : List Lbl) (tail : Bytes) (pos : Nat) (R : List Lbl) (F : List Nat)
+    (hp : (encItems t (listenerCalls st)).1 <+: T) (hR : R.length = T.length) :
+    readListener cfg ⟨(encItems t (listenerCalls st)).2 ++ tail, pos, true, R, F⟩ =
+      .ok (rawTables T st) ⟨tail, pos + (encItems t (listenerCalls st)).2.length, true, R,
+        newFix T (listenerCalls st) ++ F⟩ :=
+  readListener_honest hT cfg st hw t tail pos R F hp hR
+
+/-- **Listener tables, `Close`.**  Once the fix-ups are resolved against a table in which every listener the
+    tables point to sits at its archive index, the tables are the ones that were written: same keys, same
+    listeners in the same order in every list, null stays null, same `tableLength` / `threshold` /
+    `tableLengthIndex`. -/
+theorem C10_listener_tables_close (T Rf : List Lbl) (st : LTables)
+    (h : ∀ o ∈ tableTargets st, Rf.getD (T.idxOf o) 0 = o) : fixTables Rf (rawTables T st) = st :=
+  fixTables_raw T Rf st h
+
 /-- the unrepaired `ArchiveInternal` (`m_data.stringValue = new str(4)`): an empty String value comes back as
     the text "4" — replayed on the real code by corpus/C10/empty-string-value.json -/
 theorem C10_legacy_empty_string_value :
@@ -185,6 +211,35 @@ example : decode Cfg.legacy [[76], [86]] sampleInfo (schemaOf sample) (encode sa
 
 example : decode Cfg.fixed [[76], [86]] sampleInfo (schemaOf sample) (encode sampleInfo sample) = .ok sample :=
   C10_roundtrip _ _ _ _ (sample_wf _ (by decide))
+
+/-- a listener with a notify table of two entries (one list with a repeated and a null listener) and an end table -/
+def sampleTables : LTables :=
+  { notify := some { tableLength := 3, threshold := 3, tableLengthIndex := 0, entries := [(some [97], [5, 0, 5]), (some [98, 99], [6])] },
+    waitFor := none,
+    endl := some { tableLength := 1, threshold := 1, tableLengthIndex := 0, entries := [(some [100], [])] } }
+
+theorem sampleTables_wf : WFTables Cfg.fixed sampleTables where
+  notify := by
+    refine ⟨by decide, by decide, by decide, by decide, ?_⟩
+    intro e he
+    simp only [sampleTables, List.mem_cons, List.not_mem_nil, or_false] at he
+    rcases he with rfl | rfl <;>
+      exact ⟨by simp [WFKey, strAlloc, Cfg.fixed], by simp [WFList, safePtrSize, Cfg.fixed]⟩
+  waitFor := trivial
+  endl := by
+    refine ⟨by decide, by decide, by decide, by decide, ?_⟩
+    intro e he
+    simp only [sampleTables, List.mem_cons, List.not_mem_nil, or_false] at he
+    subst he; exact ⟨by simp [WFKey, strAlloc, Cfg.fixed], by simp [WFList, safePtrSize, Cfg.fixed]⟩
+
+example : readListener Cfg.fixed ⟨(encItems [5, 6] (listenerCalls sampleTables)).2 ++ [1, 2], 7, true, [0, 0], []⟩ =
+    .ok (rawTables [5, 6] sampleTables) ⟨[1, 2], 7 + (encItems [5, 6] (listenerCalls sampleTables)).2.length, true, [0, 0],
+      newFix [5, 6] (listenerCalls sampleTables) ++ []⟩ :=
+  C10_listener_tables_roundtrip Cfg.fixed [5, 6] (by decide) sampleTables sampleTables_wf [5, 6] [1, 2] 7 [0, 0] []
+    (by decide) rfl
+
+example : fixTables [5, 6] (rawTables [5, 6] sampleTables) = sampleTables :=
+  C10_listener_tables_close [5, 6] [5, 6] sampleTables (by decide)
 
 example : ptrSlots sample = [1, 1, 2, 3, 0] := by decide
 
